@@ -808,6 +808,188 @@ fn builders_unit(tier: Tier, shard: usize, ctx: &mut Ctx) {
     }
 }
 
+
+// ------------------------------------------------------------------ sequences beyond the default capacity
+
+/// O(mn) oracle for the documented model: three-state Gotoh in which an alignment may start at
+/// any cell (paying the prefix clips of the skipped ends) and stop at any cell (paying the
+/// suffix clips).  Equals RangeTable::optimum — asserted on every small pair at unit start.
+pub fn linear_optimum(x: &[u8], y: &[u8], s: &Scheme) -> i64 {
+    const NEG: i64 = i64::MIN / 4;
+    let (m, n) = (x.len(), y.len());
+    let (go, ge) = (s.gap_open as i64, s.gap_extend as i64);
+    let c = s.clips();
+    let forbidden = |p: i32| p <= MIN_SCORE / 2;
+    let pen = |p: i32| if forbidden(p) { NEG } else { p as i64 };
+    let start = |i: usize, j: usize| -> i64 {
+        let a = if i > 0 { pen(c[0]) } else { 0 };
+        let b = if j > 0 { pen(c[2]) } else { 0 };
+        if a == NEG || b == NEG { NEG } else { a + b }
+    };
+    let end = |i: usize, j: usize| -> i64 {
+        let a = if i < m { pen(c[1]) } else { 0 };
+        let b = if j < n { pen(c[3]) } else { 0 };
+        if a == NEG || b == NEG { NEG } else { a + b }
+    };
+    let w = n + 1;
+    let mut mm = vec![NEG; (m + 1) * w];
+    let mut ii = vec![NEG; (m + 1) * w];
+    let mut dd = vec![NEG; (m + 1) * w];
+    let mut best = NEG;
+    for i in 0..=m {
+        for j in 0..=n {
+            let k = i * w + j;
+            // a fresh start here (state "M" with nothing aligned yet)
+            let mut mv = start(i, j);
+            if i > 0 && j > 0 {
+                let d = (i - 1) * w + j - 1;
+                let prev = mm[d].max(ii[d]).max(dd[d]);
+                if prev > NEG {
+                    mv = mv.max(prev + s.subst.score(x[i - 1], y[j - 1]) as i64);
+                }
+            }
+            mm[k] = mv;
+            if i > 0 {
+                let up = (i - 1) * w + j;
+                let open = mm[up].max(dd[up]);
+                let a = if ii[up] > NEG { ii[up] + ge } else { NEG };
+                let b = if open > NEG { open + go + ge } else { NEG };
+                ii[k] = a.max(b);
+            }
+            if j > 0 {
+                let left = i * w + j - 1;
+                let open = mm[left].max(ii[left]);
+                let a = if dd[left] > NEG { dd[left] + ge } else { NEG };
+                let b = if open > NEG { open + go + ge } else { NEG };
+                dd[k] = a.max(b);
+            }
+            let here = mm[k].max(ii[k]).max(dd[k]);
+            let e = end(i, j);
+            if here > NEG && e > NEG {
+                best = best.max(here + e);
+            }
+        }
+    }
+    best
+}
+
+/// deterministic sequence of length `n` over {a,b,c}
+pub fn lcg_seq(seed: u64, n: usize) -> Vec<u8> {
+    let mut x = seed.wrapping_mul(6364136223846793005).wrapping_add(1442695040888963407);
+    (0..n)
+        .map(|_| {
+            x = x.wrapping_mul(6364136223846793005).wrapping_add(1442695040888963407);
+            b"abc"[((x >> 33) % 3) as usize]
+        })
+        .collect()
+}
+
+/// y = x with every 17th symbol substituted, every 31st deleted and a block inserted, cut/padded to n
+pub fn mutated_copy(x: &[u8], n: usize, seed: u64) -> Vec<u8> {
+    let mut y = vec![];
+    for (i, &b) in x.iter().enumerate() {
+        if i % 31 == 30 {
+            continue;
+        }
+        y.push(if i % 17 == 16 { if b == b'a' { b'b' } else { b'a' } } else { b });
+        if i == x.len() / 2 {
+            y.extend_from_slice(b"ccacc");
+        }
+    }
+    let pad = lcg_seq(seed ^ 0x9e37, n);
+    let mut k = 0;
+    while y.len() < n {
+        y.push(pad[k]);
+        k += 1;
+    }
+    y.truncate(n);
+    y
+}
+
+/// (|x|, |y|): around the aligners' default capacity (200) and around 256
+pub const LONG_SIZES: [(usize, usize); 8] = [(199, 201), (200, 200), (201, 199), (255, 257), (256, 256), (257, 255), (300, 3), (2, 300)];
+pub const LONG_CLIPS: [[i32; 4]; 5] = [[MIN_SCORE; 4], [0; 4], [MIN_SCORE, MIN_SCORE, 0, 0], [-4, MIN_SCORE, 0, -1], [0, -1, MIN_SCORE, -4]];
+
+fn long_case(si: usize, kind: u8, go: i32, ge: i32, ci: usize, mode: Mode, ctor: usize, cc: &mut CaseCtx) {
+    let (m, n) = LONG_SIZES[si];
+    let x = lcg_seq(si as u64 + 1, m);
+    let y = mutated_copy(&x, n, si as u64 + 77);
+    let c = LONG_CLIPS[ci];
+    let scheme = Scheme { subst: Subst { kind, emb: [b'a', b'b', b'c'] }, gap_open: go, gap_extend: ge, xclip_prefix: c[0], xclip_suffix: c[1], yclip_prefix: c[2], yclip_suffix: c[3] };
+    let eff = match mode.clips() {
+        Some(cl) => scheme.with_clips(cl),
+        None => scheme,
+    };
+    let opt = linear_optimum(&x, &y, &eff);
+    let got = guard(|| {
+        let sc = scoring_of(&scheme);
+        let mut a = match ctor {
+            0 => Aligner::with_scoring(sc),
+            1 => Aligner::with_capacity_and_scoring(0, 0, sc),
+            _ => Aligner::with_capacity_and_scoring(m, n, sc),
+        };
+        // a short call first: the long one must grow every internal buffer of a used object
+        let _ = call_mode(&mut a, mode, b"ab", b"ba");
+        call_mode(&mut a, mode, &x, &y)
+    });
+    match got {
+        Err(msg) => cc.violation(format!("C01/{}/long-sequences/panic", mode.name()), msg),
+        Ok(al) => {
+            if let Err((symptom, detail)) = check_alignment(&al, &x, &y, &scheme, mode, opt, true, false, cc) {
+                cc.violation(format!("C01/{}/long-sequences/{}", mode.name(), symptom), detail.chars().take(400).collect::<String>());
+            }
+            cc.set_nontrivial(true);
+        }
+    }
+}
+
+fn long_unit(tier: Tier, shard: usize, ctx: &mut Ctx) {
+    // the linear oracle must agree with the sub-range oracle wherever the latter is feasible; a
+    // disagreement is a bug of this check (machinery error), never a verdict
+    if shard == 0 {
+        let strs = gen::strings(b"ab", 0, 3);
+        for kind in [0u8, 3] {
+            for (go, ge) in [(0, -1), (-3, 0), (-1, -1)] {
+                for x in &strs {
+                    for y in &strs {
+                        let table = RangeTable::new(x, y, &Subst { kind, emb: [b'a', b'b', b'c'] }, go, ge);
+                        for ci in 0..256 {
+                            let c = clip_quadruple(ci);
+                            let s = Scheme { subst: Subst { kind, emb: [b'a', b'b', b'c'] }, gap_open: go, gap_extend: ge, xclip_prefix: c[0], xclip_suffix: c[1], yclip_prefix: c[2], yclip_suffix: c[3] };
+                            assert_eq!(linear_optimum(x, y, &s), table.optimum(c), "oracle self-check failed: {:?} {:?} {:?}", show(x), show(y), s);
+                        }
+                    }
+                }
+            }
+        }
+    }
+    let mut idx = 0usize;
+    for si in 0..LONG_SIZES.len() {
+        for kind in tier.pick(vec![0u8, 3], vec![0u8, 1, 3]) {
+            for (go, ge) in tier.pick(vec![(-1, -1), (-3, 0)], vec![(0, -1), (-1, -1), (-3, 0), (-3, -2)]) {
+                for ci in 0..LONG_CLIPS.len() {
+                    for mode in [Mode::Custom, Mode::Global, Mode::Semiglobal, Mode::Local] {
+                        if mode != Mode::Custom && ci != 3 {
+                            continue; // the standard modes ignore the clips: one setting
+                        }
+                        idx += 1;
+                        if idx % N_LONG_UNITS != shard {
+                            continue;
+                        }
+                        let ctor = idx % 3;
+                        ctx.case(
+                            || json!({"kind": "long", "size": si, "subst": kind, "gap_open": go, "gap_extend": ge, "clips": ci, "mode": mode, "ctor": ctor}),
+                            |cc| long_case(si, kind, go, ge, ci, mode, ctor, cc),
+                        );
+                    }
+                }
+            }
+        }
+    }
+}
+
+const N_LONG_UNITS: usize = 4;
+
 // ------------------------------------------------------------------ Prop
 
 const N_HISTORY_CTORS: usize = 3;
@@ -820,7 +1002,7 @@ impl Prop for C01Prop {
         "exploration"
     }
     fn rule(&self) -> &'static str {
-        "Complete sweep: every pair (x,y) over the unit's alphabet up to the length bound x every scoring scheme of the grid (substitution function x gap_open x gap_extend x 4^4 clip penalties), custom mode on an aligner object that is reused across the whole sweep of its scheme and compared with a fresh aligner on every call; global/semiglobal/local (+ custom again) on every 37th clip scheme; plus K2 call histories (depth 3/4) of (mode, x, y) on one object; plus every public construction route (Aligner::new/with_capacity, Scoring::new/from_scores + clip setters) x every scheme it can express x every pair over {a,b}^<=3, checked on the built Scoring's public fields and with the same optimum/path oracle. Each (scheme, mode, x, y[, history]) is enumerated once. Non-trivial: both sequences non-empty and the returned alignment contains a gap or a clipped end (history cases: all)."
+        "Complete sweep: every pair (x,y) over the unit's alphabet up to the length bound x every scoring scheme of the grid (substitution function x gap_open x gap_extend x 4^4 clip penalties), custom mode on an aligner object that is reused across the whole sweep of its scheme and compared with a fresh aligner on every call; global/semiglobal/local (+ custom again) on every 37th clip scheme; plus K2 call histories (depth 3/4) of (mode, x, y) on one object; plus every public construction route (Aligner::new/with_capacity, Scoring::new/from_scores + clip setters) x every scheme it can express x every pair over {a,b}^<=3, checked on the built Scoring's public fields and with the same optimum/path oracle; plus sequences around the default capacity (200) and around 256 symbols in every mode against an O(mn) oracle. Each (scheme, mode, x, y[, history]) is enumerated once. Non-trivial: both sequences non-empty and the returned alignment contains a gap or a clipped end (history cases: all)."
     }
     fn assumptions(&self) -> Vec<&'static str> {
         vec![
@@ -839,6 +1021,7 @@ impl Prop for C01Prop {
             "clip_penalties": "{MIN_SCORE,0,-1,-4}^4 (all 256)",
             "byte_embeddings": ["a,b", "0x00,0xFF", "0x7F,0x80"],
             "constructors": "with_scoring, with_capacity_and_scoring(0,0), with_capacity_and_scoring(m,n); constructor units: Aligner::new, Aligner::with_capacity, Scoring::new / Scoring::from_scores followed by xclip/yclip/xclip_prefix/xclip_suffix/yclip_prefix/yclip_suffix in four orders, a struct literal whose match_scores hint does not describe match_fn, each on every scheme the route can express x every pair over {a,b}^<=3",
+            "long_sequences": "(|x|,|y|) in (199,201) (200,200) (201,199) (255,257) (256,256) (257,255) (300,3) (2,300): pseudo-random x over {a,b,c}, y a mutated copy; 2/3 substitution kinds x 2/4 gap pairs x 5 clip settings (custom) + the three standard modes; the long call follows a short one on the same object; O(mn) oracle validated against the sub-range oracle on every pair over {a,b}^<=3 x 256 clip settings",
             "history_depth": tier.pick(3, 4), "history_alphabet": "4 modes x 52 input pairs (3 long + all of {a,b}^<=2 squared), 8 schemes x 3 constructors; BFS stops early when no new object state appears",
         })
     }
@@ -856,6 +1039,9 @@ impl Prop for C01Prop {
         for i in 0..N_BUILDER_UNITS {
             v.push(format!("constructors-{}", i));
         }
+        for i in 0..N_LONG_UNITS {
+            v.push(format!("long-sequences-{}", i));
+        }
         v
     }
     fn run_unit(&self, tier: Tier, unit: usize, ctx: &mut Ctx) {
@@ -865,8 +1051,10 @@ impl Prop for C01Prop {
         } else if unit < cfgs.len() + history_schemes().len() * N_HISTORY_CTORS {
             let h = unit - cfgs.len();
             history_unit(h / N_HISTORY_CTORS, h % N_HISTORY_CTORS, tier, ctx);
-        } else {
+        } else if unit < cfgs.len() + history_schemes().len() * N_HISTORY_CTORS + N_BUILDER_UNITS {
             builders_unit(tier, unit - cfgs.len() - history_schemes().len() * N_HISTORY_CTORS, ctx);
+        } else {
+            long_unit(tier, unit - cfgs.len() - history_schemes().len() * N_HISTORY_CTORS - N_BUILDER_UNITS, ctx);
         }
     }
     fn replay(&self, case: &Value, ctx: &mut Ctx) {
@@ -901,6 +1089,13 @@ impl Prop for C01Prop {
                 let limit = case["pair_limit"].as_u64().unwrap() as usize;
                 let ci = case["clip_idx"].as_u64().unwrap() as usize;
                 sweep(&cfg, cfg_idx, ctx, Some((limit, ci)));
+            }
+            "long" => {
+                let u = |k: &str| case[k].as_u64().unwrap_or(0) as usize;
+                let i = |k: &str| case[k].as_i64().unwrap_or(0) as i32;
+                let mode: Mode = serde_json::from_value(case["mode"].clone()).unwrap();
+                let (si, ci) = (u("size").min(LONG_SIZES.len() - 1), u("clips").min(LONG_CLIPS.len() - 1));
+                ctx.case(|| case.clone(), |cc| long_case(si, u("subst") as u8, i("gap_open"), i("gap_extend"), ci, mode, u("ctor"), cc));
             }
             "constructor" => {
                 let scheme: Scheme = serde_json::from_value(case["scheme"].clone()).unwrap();
